@@ -34,7 +34,7 @@ ASSUMPTIONS = [
 
 
 def gen_cases(tier, seed):
-    reps = 2 if tier == "quick" else 360
+    reps = 5 if tier == "quick" else 360
     cases = []
     pairs = list(itertools.product(range(6), repeat=2))
     for rep in range(reps):
